@@ -19,7 +19,8 @@ from concurrent.futures import ThreadPoolExecutor
 
 ROOT = os.path.dirname(os.path.dirname(os.path.abspath(__file__)))
 REPO = os.environ.get("S4_REPO", "/repo")
-CACHE = os.path.join(ROOT, ".cache")
+CACHE = os.environ.get("S4_VERIF_CACHE", os.path.join(ROOT, ".cache"))   # override (with S4_REPO) to test a scratch worktree
+OUT = os.environ.get("S4_VERIF_OUT", ROOT)                        # where evidence/ and replays/ are written
 COQ = os.path.join(ROOT, "coq")
 TARGET = os.path.join(CACHE, "target")
 TARGET_S4 = os.path.join(CACHE, "target-s4")
@@ -200,7 +201,10 @@ def build_harness(name, timeout=1800):
         lock = os.path.join(hdir, "Cargo.lock")
         if not os.path.exists(lock) or os.path.getmtime(lock) < os.path.getmtime(os.path.join(REPO, "Cargo.lock")):
             shutil.copy(os.path.join(REPO, "Cargo.lock"), lock)
-        rc, out = sh(["cargo", "build", "--offline", "--quiet", "--bin", name], cwd=hdir, timeout=timeout,
+        cmd = ["cargo", "build", "--offline", "--quiet", "--bin", name]
+        if os.path.realpath(REPO) != "/repo":
+            cmd += ["--config", 'paths=["%s"]' % os.path.realpath(REPO)]   # build against a scratch worktree
+        rc, out = sh(cmd, cwd=hdir, timeout=timeout,
                      env={"CARGO_TARGET_DIR": TARGET, "RUSTFLAGS": "--cfg s4_verif -Awarnings"})
         return rc == 0 and os.path.exists(harness_bin(name)), out
 
@@ -288,8 +292,8 @@ class Ctx:
     # -- final
     def finish(self, level="proof"):
         wall = time.time() - self.t0
-        os.makedirs(os.path.join(ROOT, "evidence"), exist_ok=True)
-        os.makedirs(os.path.join(ROOT, "replays"), exist_ok=True)
+        os.makedirs(os.path.join(OUT, "evidence"), exist_ok=True)
+        os.makedirs(os.path.join(OUT, "replays"), exist_ok=True)
         rc = 0
         lines = []
         for k in self.known:
@@ -297,7 +301,7 @@ class Ctx:
                 lines.append("KNOWN-FINDING: property=%s %s" % (self.prop, k["what"]))
         replay = None
         if self.failures:
-            replay = os.path.join(ROOT, "replays", "%s-%d-input.json" % (self.prop, self.seed))
+            replay = os.path.join(OUT, "replays", "%s-%d-input.json" % (self.prop, self.seed))
             json.dump(dict(property=self.prop, seed=self.seed, tier=self.tier, kind="input",
                            failures=self.failures[:20], broken=self.broken,
                            how_to_run="./check %s --replay %s" % (self.prop, replay)),
@@ -305,7 +309,7 @@ class Ctx:
             lines.append("VIOLATION property=%s replay=%s" % (self.prop, replay))
             rc = 1
         elif self.broken:
-            replay = os.path.join(ROOT, "replays", "%s-%d-obligation.json" % (self.prop, self.seed))
+            replay = os.path.join(OUT, "replays", "%s-%d-obligation.json" % (self.prop, self.seed))
             json.dump(dict(property=self.prop, seed=self.seed, tier=self.tier, kind="obligation",
                            no_longer_checks=self.broken,
                            how_to_run="./check %s --tier %s" % (self.prop, self.tier)),
@@ -320,7 +324,7 @@ class Ctx:
                   coverage=cov, assumptions=self.assumptions, wall_s=round(wall, 2),
                   violations=len(self.failures) + (1 if (self.broken and not self.failures) else 0),
                   notes=self.notes)
-        json.dump(ev, open(os.path.join(ROOT, "evidence", self.prop + ".json"), "w"), indent=1)
+        json.dump(ev, open(os.path.join(OUT, "evidence", self.prop + ".json"), "w"), indent=1)
         for l in lines:
             print(l, flush=True)
         print("%s %s tier=%s seed=%d wall=%.1fs" % (self.prop, "FAIL" if rc else "ok", self.tier, self.seed, wall), flush=True)
